@@ -217,12 +217,17 @@ def r2_separators(rep, src, f, seps, atomic_lang, res):
             rep.ok('C13.R2', fp.site, what, 'enabled/profile captured')
     _ = tmpl
     # bracket stripping: strip('<> ') removes exactly the outer brackets written by '<%s>'
-    strips = [c for c in ast.walk(fp.node) if isinstance(c, ast.Call) and isinstance(c.func, ast.Attribute) and c.func.attr == 'strip'
-              and c.args and isinstance(c.args[0], ast.Constant) and '<' in c.args[0].value]
+    cls_funcs = [g_.node for q_, g_ in fp.module.funcs.items() if q_.split('.')[0] == (fp.cls or '')] or [fp.node]
+    strips = [c for fnode_ in cls_funcs for c in ast.walk(fnode_) if isinstance(c, ast.Call) and isinstance(c.func, ast.Attribute) and c.func.attr == 'strip'
+              and c.args and isinstance(c.args[0], ast.Constant) and isinstance(c.args[0].value, str) and '<' in c.args[0].value]
     if strips and set(strips[0].args[0].value) <= set('<> ') and {'<', '>'} <= set(strips[0].args[0].value):
         rep.ok('C13.R2', fp.site, 'outer brackets of the formula are stripped', repr(strips[0].args[0].value), nontrivial=False)
+    elif strips:
+        rep.fail('C13.R2', fp.site, 'outer brackets of the formula are stripped', 'the reader strips %r from the restriction formula: more (or less) than the outer < > and blanks '
+                 'that the writer puts around it' % (strips[0].args[0].value,), where=fp.where)
     else:
-        rep.fail('C13.R2', fp.site, 'outer brackets of the formula are stripped', 'the reader does not strip the outer < > of the restriction formula', where=fp.where)
+        # (the brackets are removed some other way: what the reader makes of one and of several groups is decided on the interpreted fields, C13.R8)
+        rep.info.append('C13.R2 %s: no strip() of the outer < > found; decided by the interpreted restriction formulas of C13.R8' % fp.site)
 
 
 def _joins(t):
@@ -412,6 +417,109 @@ def r7_documented_encoding(rep, src):
         rep.fail('C13.R7', fs.site, what, 'str() gives %r for plain pairs and %r for named tuples; expected %r' % (texts['plain tuples'], texts['named tuples'], want), where=fs.where)
 
 
+def r8_inverse_by_interpretation(rep, src, tier):
+    """parse_relations and str interpreted (sa.heap, CPython's regex engine on decided texts) on a family of relation fields put together
+    from the grammar -- names x version constraints x architecture qualifiers x architecture lists x restriction formulas, as
+    alternatives and conjunctions, with the spacing variants the reader allows, and LONG fields (300 conjunctions, 300 alternatives: a
+    bound on the number of pieces is a defect that short fields do not show) -- against the structure the field was put together from:
+    parse gives that structure without a warning, str of it gives the canonical text, and parse of that text gives it again."""
+    import itertools
+    from .. import heap as H
+    mod = src.mod('deb822')
+    fp = src.func(SITE + '.parse_relations')
+    fs = src.func(SITE + '.str')
+    rep.saw_func(fp)
+    NAMES = ['a', 'lib-x2.0+y', 'p.q']
+    VERS = [None, ('>=', '1.0'), ('<<', '2:1.0-1~b+c'), ('=', '0')]
+    QUALS = [None, 'any', 'native']
+    ARCHS = [None, [(True, 'amd64')], [(False, 'i386'), (False, 'hurd-any')], [(True, 'linux-any'), (True, 'amd64')]]
+    RESTR = [None, [[(True, 'stage1')]], [[(False, 'nocheck'), (True, 'cross')]], [[(True, 'a')], [(False, 'b'), (False, 'c')]]]
+
+    def text_of(d):
+        t = d['name'] + ((':' + d['archqual']) if d['archqual'] else '')
+        if d['version']:
+            t += ' (%s %s)' % d['version']
+        if d['arch']:
+            t += ' [%s]' % ' '.join(('' if e_ else '!') + a_ for e_, a_ in d['arch'])
+        if d['restrictions']:
+            t += ' ' + ' '.join('<%s>' % ' '.join(('' if e_ else '!') + p_ for e_, p_ in g_) for g_ in d['restrictions'])
+        return t
+
+    def dep(name, ver=None, qual=None, arch=None, restr=None):
+        return {'name': name, 'archqual': qual, 'version': ver, 'arch': arch, 'restrictions': restr}
+    atoms = [dep(n_, v_, q_, a_, r_) for n_, (v_, q_, a_, r_) in zip(itertools.cycle(NAMES), itertools.product(VERS, QUALS, ARCHS, RESTR))]
+    if tier != 'thorough':
+        atoms = atoms[::7] + [dep('a', ('>=', '1.0'), 'any', ARCHS[2], RESTR[3])]
+    fields = [[[a_]] for a_ in atoms]
+    fields += [[[atoms[0], atoms[1]]], [[atoms[2]], [atoms[3], atoms[4]], [atoms[5]]]]
+    fields.append([[dep('p%d' % i)] for i in range(300)])
+    fields.append([[dep('q%d' % i) for i in range(300)]])
+    spaced = [('a,b', [[dep('a')], [dep('b')]]), ('a ,  b|c', [[dep('a')], [dep('b'), dep('c')]]), ('a (>=1.0)', [[dep('a', ('>=', '1.0'))]]),
+              ('a\n , b', [[dep('a')], [dep('b')]]), (' a (>= 1.0) ,\tb ', [[dep('a', ('>=', '1.0'))], [dep('b')]])]
+
+    def run_parse(text):
+        warned = []
+        heap = H.Heap(mod, hooks={'warnings.warn': lambda it, a, k: warned.append(a[0]), 'logger.warning': lambda it, a, k: warned.append(a[0])})
+        heap.native_regex = True
+        it = H.Interp(heap)
+        decos = [norm(d_) for d_ in fp.node.decorator_list]
+        args = [('class', 'PkgRelation'), text] if 'classmethod' in decos and fp.params() and fp.params()[0] in ('cls', 'klass') else [text]
+        try:
+            r = it.call(H.Closure(fp.node, {}, None, fp.cls), args)
+        except H.Raised as x:
+            return 'raises %s (line %d)' % (x.exc, x.lineno), warned, heap, None
+
+        def plain(v):
+            if heap.is_list(v):
+                return [plain(x) for x in heap.items(v)]
+            if isinstance(v, H.Ref) and heap.objs[v.name]['__class__'] == 'dict':
+                return {k_: plain(x) for k_, x in heap.objs[v.name]['entries']}
+            if isinstance(v, tuple) and len(v) == 4 and v[0] == 'record':
+                return tuple(plain(x) for x in v[3])
+            if isinstance(v, (list, tuple)):
+                return type(v)(plain(x) for x in v)
+            return v
+        return plain(r), warned, heap, (it, r)
+
+    def norm_struct(st_):
+        return [[{k_: (tuple(v_) if k_ == 'version' and v_ is not None else [tuple(x_) for x_ in v_] if k_ == 'arch' and v_ is not None else
+                       [[tuple(x_) for x_ in g_] for g_ in v_] if k_ == 'restrictions' and v_ is not None else v_) for k_, v_ in d_.items()} for d_ in alt_] for alt_ in st_]
+    bad = {'parse': None, 'str': None, 'again': None}
+    n = 0
+    for want in fields:
+        text = ', '.join(' | '.join(text_of(d_) for d_ in alt_) for alt_ in want)
+        got, warned, heap, live = run_parse(text)
+        n += 1
+        short = text if len(text) < 90 else text[:60] + ' ... (%d characters)' % len(text)
+        if isinstance(got, str) or warned or norm_struct(got) != norm_struct(want):
+            why = got if isinstance(got, str) else ('warns %r' % warned[0]) if warned else None
+            if why is None:
+                g_, w_ = norm_struct(got), norm_struct(want)
+                k_ = next((i for i in range(min(len(g_), len(w_))) if g_[i] != w_[i]), min(len(g_), len(w_)))
+                why = 'gives %d item(s) where %d were written%s' % (len(g_), len(w_), '' if k_ >= len(g_) else '; item %d is %r' % (k_ + 1, g_[k_]))
+            bad['parse'] = bad['parse'] or 'parse_relations(%r) %s' % (short, why)
+            continue
+        it, r = live
+        try:
+            out = it.call(H.Closure(fs.node, {}, None, fs.cls), [r])
+            out = out.concrete() if hasattr(out, 'concrete') else out
+        except H.Raised as x:
+            out = ('raises', x.exc, x.lineno)
+        if out != text:
+            bad['str'] = bad['str'] or 'str() of the parsed %r gives %s' % (short, ('%r' % (out if not isinstance(out, str) or len(out) < 90 else out[:60] + ' ...',)))
+    for text, want in spaced:
+        got, warned, heap, live = run_parse(text)
+        n += 1
+        if isinstance(got, str) or warned or norm_struct(got) != norm_struct(want):
+            bad['again'] = bad['again'] or 'parse_relations(%r) %s; the field reads as %r' % (text, got if isinstance(got, str) else ('warns %r' % warned[0]) if warned else 'gives %r' % (got,), want)
+    rep.analysed['paths'] += n
+    for key, what in (('parse', 'parse gives the structure that was written'), ('str', 'str gives the canonical text back'), ('again', 'spacing variants read as the same structure')):
+        if bad[key]:
+            rep.fail('C13.R8', fp.site if key != 'str' else fs.site, what + ' (interpreted fields)', bad[key], where=(fp if key != 'str' else fs).where)
+        else:
+            rep.ok('C13.R8', fp.site if key != 'str' else fs.site, what + ' (interpreted fields)', '%d fields, two of them with 300 pieces' % n)
+
+
 def r6_delimiter_searches(rep, src):
     """where the reader cuts the text of one dependency at the first occurrence of a character (find / index / partition / split with
     a constant) and matches a regex against the part in front of the cut, that character must not be one the regex can match: else
@@ -476,9 +584,18 @@ def check(src, rep, tier):
     rep.need('C13.R1', 40)
     rep.need('C13.R2', 10)
     rep.need('C13.R3', 5)
-    out = rep.guard('C13.R1', r1_agreement, src)
+    from . import common
+    rep.need('C13.R8', 3)
+    n_v, n_e = len(rep.violations), len(rep.errors)
+    rep.guard('C13.R8', r8_inverse_by_interpretation, src, tier)
+    fields_hold = len(rep.violations) == n_v and len(rep.errors) == n_e
+    # (the language-level readings: exact for every name, version and profile the grammar allows, when reader and writer are in their vocabulary)
+    soft = common.SoftErrors(rep, lambda: fields_hold, 'the interpreted relation fields (C13.R8), which hold')
+    out = soft.guard('C13.R1', r1_agreement, src)
     if out is not None:
-        rep.guard('C13.R2', r2_separators, src, *out)
+        soft.guard('C13.R2', r2_separators, src, *out)
+    elif fields_hold:
+        rep.min_instances['C13.R2'] = 0
     rep.guard('C13.R3', r3_mapping, src)
     rep.guard('C13.R6', r6_delimiter_searches, src)
     rep.guard('C13.R7', r7_documented_encoding, src)
